@@ -13,6 +13,7 @@ from kvstatic.effects import Effects
 from kvstatic.locks import LockModel
 from kvstatic.callgraph import sync_calls, callers_index
 from rules import C02 as _c02
+from rules import C09 as _c09
 
 MANIFEST = {
     'text': 'Decides the structural clauses of the durability protocol on every CFG path of the write, snapshot, '
@@ -451,4 +452,10 @@ def run(ctx, prog):
                        'recovered backend = max(snapshot.last_wal_seq, every logged seq) + 1 (otherwise the following restart skips the '
                        'acknowledged entry as covered); same rule as C02.R1')
     _c02.seq_continuation(ctx, prog, 'C01.R8')
+
+    # ------------------------------------------------------------------ R9 the segment list is never lost
+    ctx.rule('C01.R9', 'every MANIFEST save after construction writes back a manifest loaded in the same manifest_lock critical section (same rule as '
+                       'C09.R3): otherwise a rotation that lists a new segment between the load and the save is overwritten, and the acknowledged writes '
+                       'appended to that segment are never replayed')
+    _c09.manifest_rmw(ctx, prog, 'C01.R9', lm)
     ctx.stat('functions_analysed', len(set(i['key'].split(' | ')[1] for i in ctx.instances)))
